@@ -5699,7 +5699,11 @@ unsigned char * SZ_compress_double_2D_MDQ_nonblocked_with_blocked_regression(dou
 
 	unsigned int meta_data_offset = 3 + 1 + MetaDataByteLength_double;
 	// total size 										metadata		  # elements   real precision		intervals	nodeCount		huffman 	 	block index 						unpredicatable count						mean 					 	unpred size 				elements
-	unsigned char * result = (unsigned char *) calloc(meta_data_offset + exe_params->SZ_SIZE_TYPE + sizeof(double) + sizeof(int) + sizeof(int) + 5*treeByteSize + 3*num_blocks*sizeof(int) + num_blocks * sizeof(unsigned short) + num_blocks * sizeof(unsigned short) + num_blocks * sizeof(double) + total_unpred * sizeof(double) + num_elements * sizeof(int), 1);
+	unsigned char * result = (unsigned char *) calloc(meta_data_offset + exe_params->SZ_SIZE_TYPE + sizeof(double) + sizeof(int) + sizeof(int) + 5*treeByteSize + 3*num_blocks*sizeof(int) + num_blocks * sizeof(unsigned short) + num_blocks * sizeof(unsigned short) + num_blocks * sizeof(double) + total_unpred * sizeof(double) + num_elements * sizeof(int)
+	/*the (up to four) regression-coefficient sections, each: precision, radius, tree size, node count, tree (at most 13 bytes per node,
+	  at most 2*reg_count nodes), size field, codes, unpredictable count and values (reg_count <= num_blocks); together with the unpredictable-data
+	  count and the 8-byte stores of encode() they are not covered by the terms above, which only matters for arrays of a few blocks*/
+	+ 4*(48 + 40*num_blocks) + 2*sizeof(size_t), 1);
 	unsigned char * result_pos = result;
 	initRandomAccessBytes(result_pos);
 	result_pos += meta_data_offset;
@@ -6795,7 +6799,11 @@ unsigned char * SZ_compress_double_3D_MDQ_nonblocked_with_blocked_regression(dou
 
 	unsigned int meta_data_offset = 3 + 1 + MetaDataByteLength_double;
 	// total size 										metadata		  # elements     real precision		intervals	nodeCount		huffman 	 	block index 						unpredicatable count						mean 					 	unpred size 				elements
-	unsigned char * result = (unsigned char *) calloc(meta_data_offset + exe_params->SZ_SIZE_TYPE + sizeof(double) + sizeof(int) + sizeof(int) + 5*treeByteSize + 4*num_blocks*sizeof(int)+ num_blocks * sizeof(unsigned short) + num_blocks * sizeof(unsigned short) + num_blocks * sizeof(double) + total_unpred * sizeof(double) + num_elements * sizeof(int), 1);
+	unsigned char * result = (unsigned char *) calloc(meta_data_offset + exe_params->SZ_SIZE_TYPE + sizeof(double) + sizeof(int) + sizeof(int) + 5*treeByteSize + 4*num_blocks*sizeof(int)+ num_blocks * sizeof(unsigned short) + num_blocks * sizeof(unsigned short) + num_blocks * sizeof(double) + total_unpred * sizeof(double) + num_elements * sizeof(int)
+	/*the (up to four) regression-coefficient sections, each: precision, radius, tree size, node count, tree (at most 13 bytes per node,
+	  at most 2*reg_count nodes), size field, codes, unpredictable count and values (reg_count <= num_blocks); together with the unpredictable-data
+	  count and the 8-byte stores of encode() they are not covered by the terms above, which only matters for arrays of a few blocks*/
+	+ 4*(48 + 40*num_blocks) + 2*sizeof(size_t), 1);
 	unsigned char * result_pos = result;
 	initRandomAccessBytes(result_pos);
 
